@@ -11,6 +11,7 @@ PINNED = {
     "xyzpy/gen/combo_runner.py": ["multi_concat", "get_ndim_first", "nan_like_result", "infer_shape"],
     "xyzpy/gen/cropping.py": ["Crop._sync_info_from_disk", "Crop.all_nan_result", "Crop.delete_all",
                               "Crop.num_sown_batches", "Crop.num_results", "Crop.__init__"],
+    "xyzpy/manage.py": ["auto_xyz_ds"],
     "xyzpy/plot/core.py": ["check_excess_dims", "Plotter.prepare_z_vals", "Plotter.prepare_z_labels",
                            "Plotter.prepare_colors", "calc_row_col_datasets",
                            "AbstractLinePlot.prepare_data_single", "AbstractLinePlot.prepare_data_multi_grid",
